@@ -249,6 +249,13 @@ def checkC04 (c : CaseSt) : List String := Id.run do
     if !isLocal c s.sender && okS c s then
       if s.serLo.isSome then fails := fails ++ [s!"item tag {s.tag} whose serialization fails was reported as sent"]
       if s.sizeLo > c.cfg.sMaxItem then fails := fails ++ [s!"item tag {s.tag} of {s.sizeLo} bytes exceeds the sender's max_item_size {c.cfg.sMaxItem} but was reported as sent"]
+  -- P9 a value queued on a remote link is transmitted unless the channel ends (no neighbour may take it down)
+  if c.event == "none" && ended && c.kind == "mpsc" then
+    for s in c.sends do
+      if !isLocal c s.sender && s.res == "queued" then
+        let h := handleOf c s
+        if !(h == "ok" || h == "ser" || h == "oversize") then
+          fails := fails ++ [s!"queued item tag {s.tag} of sender {s.sender} was not transmitted (Sending handle: {h}) although the channel did not end"]
   -- P8
   if c.kind == "oneshot" && tags.length > 1 then fails := fails ++ ["oneshot delivered more than one value"]
   -- hangs / panics
